@@ -14,6 +14,7 @@ mod hier;
 mod detect;
 mod slice;
 mod loadseq;
+mod serde_rt;
 
 fn dispatch(cmd: &str, args: &[&str]) -> String {
     match cmd {
@@ -29,6 +30,9 @@ fn dispatch(cmd: &str, args: &[&str]) -> String {
         "loadseqf" => loadseq::run_file(args),
         "loadsrc" => loadseq::run_source(args),
         "nsig" => loadseq::run_nsig(args),
+        "serde" => serde_rt::run_path(args),
+        "serdev" => serde_rt::run_vcd(args),
+        "serdej" => serde_rt::run_json(args),
         "ghwslices" => slice::run_ghw(args),
         "detectc" => detect::run_cursor(args),
         "vcd" => vcd::run_vcd(args),
